@@ -14,7 +14,7 @@ ASSUMPTIONS = ["reference codec vf/ref/wire.py; 'script the library accepts' is 
 NSHARDS = {"quick": 32, "thorough": 64}
 BUDGET_S = {"quick": 200, "thorough": 1800}
 MIN_HITS = {
-    'quick': {"gen_accepted": 872, "build": 4360, "mutant": 10080, "mutant_accepted": 4154, "coinbase_tx": 95, "count>=253": 20, "scriptlen>=65536": 12},
+    'quick': {"gen_accepted": 874, "build": 4370, "mutant": 10080, "mutant_accepted": 4117, "coinbase_tx": 96, "count>=253": 20, "scriptlen>=65536": 12},
     'thorough': {"gen_accepted": 76987, "build": 384912, "mutant": 1075200, "mutant_accepted": 444576, "coinbase_tx": 6697, "count>=253": 28, "count>=65536": 2, "scriptlen>=65536": 15},
 }
 
